@@ -32,18 +32,23 @@ theorem no_cross_session_send (cfg : Config) (hinj : ∀ a b, cfg.packerOf a = c
     (acts : List Act) :
     ∀ w ∈ (run cfg State.init acts).sent,
       (∃ src, (w.sid, src, w.pkt) ∈ (run cfg State.init acts).recvd) ∧
-      destOK (run cfg State.init acts).answers w :=
+      destOK cfg.upstream (run cfg State.init acts).answers w :=
   Relay.sent_ok cfg hinj acts
 
-/-- … instantiated with what the source says now (every protocol parameter free). -/
-theorem no_cross_session_send_code (cap : Nat) (byAddr src : Bool) (acts : List Act) :
-    ∀ w ∈ (run (codeConfig cap byAddr src) State.init acts).sent,
-      (∃ a, (w.sid, a, w.pkt) ∈ (run (codeConfig cap byAddr src) State.init acts).recvd) ∧
-      destOK (run (codeConfig cap byAddr src) State.init acts).answers w :=
+/-- … instantiated with what the source says now (every protocol parameter free: capacity, keying, whether the
+server protocol carries a source, direct client or any upstream proxy address). -/
+theorem no_cross_session_send_code (cap : Nat) (byAddr src : Bool) (up : Option (IP × Nat)) (acts : List Act) :
+    ∀ w ∈ (run (codeConfig cap byAddr src up) State.init acts).sent,
+      (∃ a, (w.sid, a, w.pkt) ∈ (run (codeConfig cap byAddr src up) State.init acts).recvd) ∧
+      destOK up (run (codeConfig cap byAddr src up) State.init acts).answers w :=
   no_cross_session_send _ code_packer_per_session acts
 
 example : ∃ cfg : Config, ∀ a b, cfg.packerOf a = cfg.packerOf b → a = b :=
-  ⟨⟨4, true, true, false, fun s => s⟩, fun _ _ h => h⟩
+  ⟨⟨4, true, true, false, none, fun s => s⟩, fun _ _ h => h⟩
+
+/-- with an upstream proxy everything goes to the proxy, the named target travels inside -/
+example : (run ⟨4, true, true, false, some (99, 1080), fun s => s⟩ State.init
+    [.recv 1 1 (some ⟨.dom 7 53, 100⟩), .initOk 0, .take 0]).sent = [⟨0, ⟨.dom 7 53, 100⟩, 99, 1080⟩] := by decide
 
 /-- the F8 witness: A resolves X (→ 10), B resolves Y (→ 20) on the SAME packer; A reads the cached IP after B overwrote it -/
 def f8Witness : List Act :=
@@ -55,13 +60,13 @@ def f8Witness : List Act :=
 /-- **Negation with a shared packer** (the pinned tree before the F8 repair): a reachable state has a datagram
 of session 0, whose packet names domain 7, on the wire towards an address the resolver never gave for domain 7. -/
 theorem shared_packer_cross_send :
-    ∃ w ∈ (run ⟨4, true, true, false, packerOfShared true⟩ State.init f8Witness).sent,
-      ¬ destOK (run ⟨4, true, true, false, packerOfShared true⟩ State.init f8Witness).answers w := by
+    ∃ w ∈ (run ⟨4, true, true, false, none, packerOfShared true⟩ State.init f8Witness).sent,
+      ¬ destOK none (run ⟨4, true, true, false, none, packerOfShared true⟩ State.init f8Witness).answers w := by
   decide
 
 /-- the same schedule is harmless with a packer per session -/
-example : ∀ w ∈ (run ⟨4, true, true, false, packerOfShared false⟩ State.init f8Witness).sent,
-      destOK (run ⟨4, true, true, false, packerOfShared false⟩ State.init f8Witness).answers w := by
+example : ∀ w ∈ (run ⟨4, true, true, false, none, packerOfShared false⟩ State.init f8Witness).sent,
+      destOK none (run ⟨4, true, true, false, none, packerOfShared false⟩ State.init f8Witness).answers w := by
   decide
 
 /-- **garbage_is_noop.** A datagram that fails to parse or authenticate (unpack result `none`) changes
@@ -81,7 +86,7 @@ theorem garbage_is_noop_code (cap : Nat) (byAddr src : Bool) (st : State) (key :
   garbage_is_noop _ (by simp [codeConfig, code_facts.1]) st key a
 
 /-- had the insert preceded the unpack, garbage WOULD create a session (the model can tell the difference) -/
-example : (step ⟨4, true, true, true, fun s => s⟩ State.init (.recv 1 1 none)).next = 1 := by decide
+example : (step ⟨4, true, true, true, none, fun s => s⟩ State.init (.recv 1 1 none)).next = 1 := by decide
 
 /-- **replies_to_owner.** Every reply a downlink wrote is addressed to the source address of the most
 recent packet accepted for that session incarnation at the time of sending (its owner's LATEST address),
@@ -101,7 +106,7 @@ theorem replies_to_owner_code (cap : Nat) (byAddr src : Bool) (acts : List Act) 
       (byAddr = true → ∃ s, (run (codeConfig cap byAddr src) State.init acts).sess r.sid = some s ∧ r.to = s.key) :=
   replies_to_owner _ (by simp [codeConfig, code_facts.1]) acts
 
-example : (run ⟨4, false, true, false, fun s => s⟩ State.init
+example : (run ⟨4, false, true, false, none, fun s => s⟩ State.init
     [.recv 9 1 (some ⟨.ip 5 53, 100⟩), .initOk 0, .recv 9 2 (some ⟨.ip 5 53, 101⟩), .down 0 (some ((5, 53), 300))]).replies
     = [⟨0, 2, some (5, 53), (5, 53), 300, 2⟩] := by decide
 
@@ -116,7 +121,7 @@ theorem ss2022_follows_address (cfg : Config) (hif : cfg.insertFirst = false) (h
     ∃ s, (step cfg (run cfg State.init acts) (.recv key src (some q))).sess sid = some s ∧ s.clientAddr = src ∧ s.key = key :=
   Relay.follows_address cfg hif hb acts key sid src q ht
 
-example : (run ⟨4, false, true, false, fun s => s⟩ State.init [.recv 9 1 (some ⟨.ip 5 53, 100⟩)]).table 9 = some 0 := by decide
+example : (run ⟨4, false, true, false, none, fun s => s⟩ State.init [.recv 9 1 (some ⟨.ip 5 53, 100⟩)]).table 9 = some 0 := by decide
 
 /-- address-keyed relays: a datagram from another address never reaches this session (its key IS its address) -/
 theorem nat_keyed_by_address (cfg : Config) (hb : cfg.byAddr = true) (st : State) (key : Key) (src : Addr)
